@@ -69,11 +69,11 @@ def _implicit_serdes(ctx: Ctx, discharged: List[Dict[str, Any]]) -> Any:
             elif isinstance(n, ast.Call):
                 name = dotted(n.func) or ""
                 if name == "struct.unpack":
-                    ok = _unpack_sizes_agree(fn, n)
+                    ok = _unpack_sizes_agree(ctx, fn, n)
                     if ok is None:
                         raise AnalysisError("%s: cannot establish how many bytes reach %s (expected a buffer filled by bit_length // 8 reads of 8 bits)" % (fn.qualname, norm(n)[:60]))
                     if ok:
-                        rec(fn, n, "format sizes equal the number of bytes read (bit_length // 8 reads of 8 bits)")
+                        rec(fn, n, "for every float width the format's size equals the number of bytes read (abstract runs of the decoder)")
                     else:
                         out.append(("ext:struct.error", n, norm(n)[:50]))
                 elif name == "bytes" and n.args and fn.name.startswith("_deserialize"):
@@ -87,19 +87,49 @@ def _implicit_serdes(ctx: Ctx, discharged: List[Dict[str, Any]]) -> Any:
 
 
 def _index_guarded(fn: FuncInfo, n: ast.Subscript, pm: Dict[ast.AST, ast.AST]) -> bool:
+    """
+    Is `v[idx]` protected by a bounds test?  Either an enclosing `if <test>` whose test implies idx < len(v), or an earlier
+    `if <test>: raise` (no else) whose test is implied by idx >= len(v).  Tests are compared by meaning: single-assignment
+    locals are substituted and the test is folded over a small grid of (idx, len(v)).
+    """
+    from ..decide import substitute
+    from ..linform import _local_defs, _resolve
+
     v, idx = norm(n.value), norm(n.slice)
-    want = {"%s < len(%s)" % (idx, v), "len(%s) > %s" % (v, idx)}
+    defs = _local_defs(fn)
+    defs.pop(idx, None)  # the index itself stays symbolic
+
+    def truth_table(test: ast.AST) -> Optional[Dict[Tuple[int, int], bool]]:
+        t = _resolve(test, defs)
+        out: Dict[Tuple[int, int], bool] = {}
+        for i in range(0, 5):
+            for ln in range(0, 5):
+                def hook(e: ast.expr, f: Folder) -> Any:
+                    s_ = norm(e)
+                    if s_ == idx:
+                        return i
+                    if s_ == "len(%s)" % v:
+                        return ln
+                    return NotImplemented
+
+                try:
+                    out[(i, ln)] = bool(Folder({}, None, None, None, hook).fold(t))  # type: ignore
+                except Unfoldable:
+                    return None
+        return out
+
     cur: ast.AST = n
     while cur in pm:
         par = pm[cur]
-        if isinstance(par, ast.If) and norm(par.test) in want and any(cur is s or cur in ast.walk(s) for s in par.body):
-            return True
+        if isinstance(par, ast.If) and any(cur is s_ or cur in ast.walk(s_) for s_ in par.body):
+            tt = truth_table(par.test)
+            if tt is not None and all((not val) or i < ln for (i, ln), val in tt.items()):
+                return True
         cur = par
-    # dominated by an earlier `if idx >= len(v): raise`
     for st in walk_no_nested(fn.node):
         if isinstance(st, ast.If) and st.lineno < n.lineno and st.body and isinstance(st.body[-1], ast.Raise) and not st.orelse:
-            t = norm(st.test)
-            if t in ("%s >= len(%s)" % (idx, v), "len(%s) <= %s" % (v, idx)):
+            tt = truth_table(st.test)
+            if tt is not None and all(val for (i, ln), val in tt.items() if i >= ln):
                 # the index variable must not be reassigned in between (single assignment)
                 assigns = [a for a in walk_no_nested(fn.node) if isinstance(a, ast.Assign) and any(norm(t2) == idx for t2 in a.targets)]
                 if len(assigns) <= 1:
@@ -107,29 +137,34 @@ def _index_guarded(fn: FuncInfo, n: ast.Subscript, pm: Dict[ast.AST, ast.AST]) -
     return False
 
 
-def _unpack_sizes_agree(fn: FuncInfo, call: ast.Call) -> Optional[bool]:
+def _unpack_sizes_agree(ctx: Ctx, fn: FuncInfo, call: ast.Call) -> Optional[bool]:
     """
-    fmt chosen by `schema.bit_length == N` branches; the buffer has bit_length // 8 bytes read 8 bits at a time.
-    True: sizes agree.  False: a format's size differs from its branch's byte count.  None: shape not recognised.
+    Does struct.unpack always receive as many bytes as its format needs?  Decided on the abstract runs of the float decoder
+    (sa/codec.py): for each float width the value returned is UNPACKED(format, number of bytes read).
+    True: sizes agree for every width.  False: a format's size differs from the bytes read.  None: not evaluable.
     """
-    fmts: Dict[int, str] = {}
-    for st in ast.walk(fn.node):
-        if isinstance(st, ast.If) and isinstance(st.test, ast.Compare) and norm(st.test.left).endswith(".bit_length") and isinstance(st.test.ops[0], ast.Eq) and isinstance(st.test.comparators[0], ast.Constant):
-            for b in st.body:
-                if isinstance(b, ast.Assign) and norm(b.targets[0]) == norm(call.args[0]) and isinstance(b.value, ast.Constant):
-                    fmts[st.test.comparators[0].value] = b.value.value
-    if not fmts:
+    from .. import codec as C
+    from ..fold import Sym
+
+    if fn.name != "_deserialize_primitive":
         return None
-    # the byte count expression and the loop that fills the buffer
-    src = norm(fn.node)
-    if not ("range(schema.bit_length // 8)" in src.replace("byte_count", "schema.bit_length // 8") and "read_bits(8)" in src):
-        return None
-    for bits, f in fmts.items():
+    for width in (16, 32, 64):
+        ft = C.type_sym(ctx, "FloatType", bit_length=width, cast_mode="CastMode.SATURATED", alignment_requirement=1, name="float%d" % width, inclusive_value_range=Sym(min=-1, max=1))
         try:
-            if _struct.calcsize(f) != bits // 8:
+            runs = C.explore_codec(ctx, "_deserialize_primitive", lambda sink: ([C.AReader(sink, "r"), ft], {}))
+        except AnalysisError:
+            return None
+        for r in runs:
+            if r.raised:
+                continue
+            res = r.result
+            if not (isinstance(res, tuple) and len(res) == 3 and res[0] == "UNPACKED" and isinstance(res[1], str) and isinstance(res[2], int)):
+                return None
+            try:
+                if _struct.calcsize(res[1]) != res[2]:
+                    return False
+            except _struct.error:
                 return False
-        except _struct.error:
-            return False
     return True
 
 
@@ -182,78 +217,85 @@ def rule_r1(ctx: Ctx) -> None:
 
 
 # ---------------------------------------------------------------------------------------------------- R2
-def _guard_region(ctx: Ctx, fn: FuncInfo, raise_cls: str, var_exprs: Dict[str, str], domain: List[Dict[str, Any]], want: Any, label: str) -> None:
-    """accepted region of the guard that raises `raise_cls` in fn, over the named quantities"""
-    repo = ctx.repo
-    paths = paths_of(fn.node, opaque=["reader", "sub_reader", "writer"])
-    target = [p for p in paths if p.kind == "raise" and getattr(exc_class_of(repo, fn.module, fn.cls, p.value), "name", None) == raise_cls]
-    if not target:
-        ctx.fail(fn.short, label, "the %s guard is gone" % raise_cls, where=fn.where())
-        return
-    # the guard condition is the last non-marker condition on the raising path
-    bad = []
-    for v in domain:
-        env = {expr: v[name] for name, expr in var_exprs.items()}
-
-        def hook(e: ast.expr, f: Folder) -> Any:
-            s = norm(e)
-            if s in env:
-                return env[s]
-            return NotImplemented
-
-        rejected = False
-        for p in target:
-            conds = [(c, pol) for c, pol in p.conds if not isinstance(c, tuple)]
-            rel = [(c, pol) for c, pol in conds if any(k in norm(c) for k in var_exprs.values())]
-            if not rel:
-                raise AnalysisError("%s: %s raise is not guarded by the expected quantities" % (fn.qualname, raise_cls))
-            okp = True
-            for c, pol in rel:
-                try:
-                    r = bool(Folder({}, repo, fn.module, fn.cls, hook).fold(c))
-                except Unfoldable as ex:
-                    raise AnalysisError("%s: cannot fold guard %s: %s" % (fn.qualname, norm(c), ex))
-                if r != pol:
-                    okp = False
-                    break
-            rejected = rejected or okp
-        ctx.count()
-        if rejected == bool(want(v)):
-            bad.append({"state": v, "found": "reject" if rejected else "accept"})
-    ctx.check(not bad, fn.short, label, "validation guard must reject exactly the invalid values (both sides of the boundary)", fn.where(), bad[:6])
-
-
 def rule_r2(ctx: Ctx) -> None:
-    repo = ctx.repo
-    ctx.rule("C07.R2", "validation guards: array length in [0, capacity]; union tag in [0, n-1]; delimiter header 8*h <= remaining bits at both copies; each guard dominates the use; nothing is clamped", min_instances=6)
-    arr = ctx.func(SD + "._deserialize_array")
-    dom = [{"length": l, "capacity": c} for c in (1, 2, 255, 256) for l in (0, 1, c - 1, c, c + 1, 2 * c + 7)]
-    _guard_region(ctx, arr, "ArrayLengthError", {"length": "reader.read_bits(schema.length_field_type.bit_length)", "capacity": "schema.capacity"}, dom, lambda v: 0 <= v["length"] <= v["capacity"], "array length guard")
-    comp = ctx.func(SD + "._deserialize_composite")
-    dom = [{"tag": t, "n": n} for n in (2, 3, 256, 257) for t in (0, 1, n - 2, n - 1, n, n + 1, 2**16 - 1)]
-    _guard_region(ctx, comp, "UnionTagError", {"tag": "reader.read_bits(schema.tag_field_type.bit_length)", "n": "len(schema.fields)"}, dom, lambda v: 0 <= v["tag"] <= v["n"] - 1, "union tag guard")
-    dom = [{"h": h, "rem": r} for r in (0, 7, 8, 9, 16, 64) for h in (0, 1, 2, 8, 9, 2**32 - 1)]
-    top = ctx.func(SD + ".deserialize")
-    for fn, rd in ((comp, "reader"), (top, "reader")):
-        hdr = "%s.read_bits(schema.delimiter_header_type.bit_length)" % rd
-        _guard_region(ctx, fn, "DelimiterHeaderError", {"h": hdr, "rem": "%s.remaining_bits" % rd}, dom, lambda v: 8 * v["h"] <= v["rem"], "delimiter header guard")
-    # dominance + no clamping: after the guard the validated quantity is used as is
-    uses = {
-        arr: ("range(length)", ["min(", "max("]),
-        comp: ("schema.fields[tag]", ["min(", "max(", "% len("]),
-    }
-    for fn, (use, forbidden) in uses.items():
-        src = norm(fn.node)
-        good = use in src
-        # the first use comes after the guard statement
-        guard_line = min((n.lineno for n in ast.walk(fn.node) if isinstance(n, ast.Raise) and "Error" in norm(n) and ("Length" in norm(n) or "Tag" in norm(n))), default=0)
-        use_line = min((n.lineno for n in ast.walk(fn.node) if norm(n) == use), default=0)
-        clamp = [f for f in forbidden if any(f + x in src for x in ("length", "tag"))]
-        ctx.check(good and 0 < guard_line < use_line and not clamp, fn.short, "guard dominates `%s`" % use, "the validated value is used unchanged after the guard", fn.where(), {"guard_line": guard_line, "use_line": use_line, "clamping": clamp})
-    for fn in (comp, top):
-        src = norm(fn.node)
-        n_sub = src.count("reader.bounded_subreader(payload_bit_length)")
-        ctx.check(n_sub == 1 and "payload_bit_length = payload_byte_length * 8" in src.replace("reader.read_bits(schema.delimiter_header_type.bit_length) * 8", "payload_byte_length * 8"), fn.short, "sub-reader bounded by 8 * header", "the nested object is confined to exactly the number of bits announced by its header", fn.where())
+    """decision tables of the reader's validation guards, from the abstract runs of the decoder (sa/codec.py)"""
+    from .. import codec as C
+    from . import codec_common as K
+
+    ctx.rule("C07.R2", "validation guards: array length in [0, capacity]; union tag in [0, n-1]; delimiter header 8*h <= remaining bits at both copies; the validated value is used unchanged (as many elements as the prefix says, the variant the tag names, a window of exactly 8*h bits)", min_instances=6)
+    S = K.schemas(ctx)
+    where = "pydsdl/_serdes.py"
+    # ---- variable-length arrays
+    for arr in S["variable_arrays"]:
+        runs = K.reader_runs(ctx, "_deserialize_array", arr)
+        bad = []
+        cap = arr.capacity
+        for length in sorted({0, 1, cap - 1, cap, cap + 1, 2 * cap + 7, 2 ** arr.length_field_type.bit_length - 1}):
+            sel = C.select_run(runs, {"read": length})
+            ctx.count()
+            if len(sel) != 1:
+                raise AnalysisError("_deserialize_array: %d abstract runs match length %d" % (len(sel), length))
+            r = sel[0]
+            if length > cap:
+                if r.raised != "ArrayLengthError":
+                    bad.append({"length": length, "capacity": cap, "found": r.raised or "accepted"})
+                continue
+            evs = C.of_io(C.normalize(r.events, True), "r")
+            rep = [e for e in evs if e[0] == "REPEAT"]
+            count = None
+            if len(rep) == 1:
+                try:
+                    count = C.eval_abs(C._subst_atoms(rep[0][1], {"read": length}), {})
+                except (KeyError, TypeError):
+                    count = None
+            if r.raised or len(rep) != 1 or count != length:
+                bad.append({"length": length, "capacity": cap, "found": r.raised or "elements decoded: %s" % count})
+        ctx.check(not bad, "_serdes._deserialize_array[%s]" % arr.name, "array length guard", "a length prefix above the capacity is ArrayLengthError; otherwise exactly that many elements are decoded (no clamping)", where, bad[:4])
+    # ---- unions
+    for u in S["unions"]:
+        runs = K.reader_runs(ctx, "_deserialize_composite", u)
+        n = len(u.fields)
+        bad = []
+        for tag in sorted({0, 1, n - 1, n, n + 1, 255}):
+            sel = C.select_run(runs, {"read": tag})
+            ctx.count()
+            if tag >= n:
+                if not sel or any(r.raised != "UnionTagError" for r in sel):
+                    bad.append({"tag": tag, "variants": n, "found": [r.raised or "accepted" for r in sel]})
+                continue
+            ok = [r for r in sel if not r.raised]
+            if len(sel) != 1 or len(ok) != 1 or not (isinstance(ok[0].result, dict) and list(ok[0].result) == [u.fields[tag].name]):
+                bad.append({"tag": tag, "variants": n, "found": [r.raised or r.result for r in sel]})
+        ctx.check(not bad, "_serdes._deserialize_composite[%s]" % u.name, "union tag guard", "a tag beyond the last variant is UnionTagError; otherwise the variant with that index is decoded (no wrapping)", where, bad[:4])
+    # ---- delimiter header, both copies
+    for d in S["delimited"][:1]:
+        for fname, kw in (("_deserialize_composite", {}), ("deserialize", {"with_delimiter_header": True})):
+            runs = K.reader_runs(ctx, fname, d, **kw)
+            bad = []
+            for rem in (0, 7, 8, 9, 16, 64):
+                for h in (0, 1, 2, 8, 9, 2**32 - 1):
+                    sel = C.select_run(runs, {"read": h, "remaining": rem})
+                    ctx.count()
+                    if len(sel) != 1:
+                        raise AnalysisError("%s: %d abstract runs match header %d with %d bits remaining" % (fname, len(sel), h, rem))
+                    r = sel[0]
+                    if 8 * h > rem:
+                        if r.raised != "DelimiterHeaderError":
+                            bad.append({"header": h, "remaining": rem, "found": r.raised or "accepted"})
+                        continue
+                    subs = [e for e in C.normalize(r.events, True) if e[0] == "SUB"]
+                    width = None
+                    if len(subs) == 1:
+                        try:
+                            width = C.eval_abs(C._subst_atoms(subs[0][2], {"read": h}), {})
+                        except (KeyError, TypeError):
+                            width = None
+                    if r.raised or len(subs) != 1 or width != 8 * h:
+                        bad.append({"header": h, "remaining": rem, "found": r.raised or "window of %s bits" % width})
+            ctx.check(not bad, "_serdes.%s[DelimitedType]" % fname, "delimiter header guard", "a header announcing more bytes than remain is DelimiterHeaderError; otherwise the nested object is confined to exactly 8 x header bits", where, bad[:4])
+            # which quantity is compared: the header just read against the bits remaining *in this reader* after the header
+            hdr_first = all((not r.events) or r.events[0][0] == "BITS" for r in runs)
+            ctx.check(hdr_first, "_serdes.%s[DelimitedType]" % fname, "the header is read before anything else", "the header is the first thing consumed", where, nontrivial=False)
 
 
 # ---------------------------------------------------------------------------------------------------- R3
@@ -299,17 +341,18 @@ def lin_of(e: ast.AST) -> Lin:
 
 
 def _offset_delta(ctx: Ctx, fn: FuncInfo, count_param: str, recursive: str) -> List[Dict[str, Any]]:
-    """For every path of fn: the net change of self._bit_offset as a linear form; must equal `count_param`."""
+    """For every path of fn (private helpers expanded): the net change of self._bit_offset as a linear form; must equal `count_param`."""
     results = []
+    fnode = ctx.inl(fn, keep=(recursive,))
     # locals bound to (expressions containing) a recursive call stay opaque so that a call is counted once
     opaque = set()
-    for st in ast.walk(fn.node):
+    for st in ast.walk(fnode):
         if isinstance(st, (ast.Assign, ast.AugAssign)):
             if any(isinstance(n, ast.Call) and norm(n.func) == "self." + recursive for n in ast.walk(st.value)):
                 for t in (st.targets if isinstance(st, ast.Assign) else [st.target]):
                     if isinstance(t, ast.Name):
                         opaque.add(t.id)
-    paths = paths_of(fn.node, opaque=sorted(opaque))
+    paths = paths_of(fnode, opaque=sorted(opaque))
     for p in paths:
         if p.kind not in ("return", "fall"):
             continue
@@ -382,14 +425,51 @@ def rule_r3(ctx: Ctx) -> None:
     bs = ctx.func(SD + "._BitReader.bounded_subreader")
     res = _offset_delta(ctx, bs, bs.params[1], "read_bits")
     ctx.check(all(r["ok"] for r in res) and bool(res), bs.short, "parent advances by bit_count", "the parent reader skips the whole nested object regardless of what the sub-reader consumes", bs.where(), res)
-    rets = [p for p in paths_of(bs.node) if p.kind == "return"]
-    good = len(rets) == 1 and isinstance(rets[0].value, ast.Call) and norm(rets[0].value.func).endswith("_BitReader") and [norm(a) for a in rets[0].value.args] == ["self._data", "self._bit_offset", bs.params[1]]
+    rets = [p for p in paths_of(ctx.inl(bs)) if p.kind == "return"]
+    good = len(rets) == 1 and isinstance(rets[0].value, ast.Call) and norm(rets[0].value.func).endswith("_BitReader")
+    if good:
+        # bind the constructor call to the constructor's parameters (positional or by keyword)
+        init = ctx.func(SD + "._BitReader.__init__")
+        ps = init.params[1:]
+        call = rets[0].value
+        bound = {p: norm(a) for p, a in zip(ps, call.args)}
+        bound.update({k.arg: norm(k.value) for k in call.keywords if k.arg})
+        good = len(ps) == 3 and [bound.get(p) for p in ps] == ["self._data", "self._bit_offset", bs.params[1]]
     ctx.check(good, bs.short, norm(rets[0].value) if rets else "?", "the sub-reader starts at the parent's current offset with the given limit over the same buffer", bs.where())
     for cname in ("_BitReader", "_BitWriter"):
         al = ctx.func("%s.%s.align_to" % (SD, cname))
-        src = norm(al.node)
-        good = "bit_alignment - " in src and "% bit_alignment" in src and "self._bit_offset -=" not in src
-        ctx.check(good, al.short, "pads forward to the next multiple", "alignment only moves forward by alignment - (offset mod alignment)", al.where(), nontrivial=False)
+        # net advance on every completing path, as a function of (offset, alignment): (-offset) mod alignment
+        bad_al = []
+        paths = [p for p in paths_of(ctx.inl(al)) if p.kind in ("return", "fall")]
+        for off in range(0, 20):
+            for a_ in (1, 2, 3, 8, 16):
+                taken = []
+                for p in paths:
+                    okp = True
+                    delta = 0
+                    try:
+                        for c, pol in p.conds:
+                            if isinstance(c, tuple):
+                                continue
+                            if bool(Folder({"self._bit_offset": off, al.params[1]: a_}, ctx.repo, al.module, al.cls).fold(c)) != pol:
+                                okp = False
+                                break
+                        if okp:
+                            for ev in p.events:
+                                if isinstance(ev, tuple) and ev[0] == "assign" and "self._bit_offset" in ev[1]:
+                                    delta = Folder({"self._bit_offset": off, al.params[1]: a_}, ctx.repo, al.module, al.cls).fold(ev[2]) - off
+                                elif isinstance(ev, ast.AST):
+                                    for n_ in ast.walk(ev):
+                                        if isinstance(n_, ast.Call) and norm(n_.func) in ("self.write_bits", "self.read_bits"):
+                                            delta += Folder({"self._bit_offset": off, al.params[1]: a_}, ctx.repo, al.module, al.cls).fold(n_.args[-1])
+                    except Unfoldable as ex:
+                        raise AnalysisError("%s: cannot fold: %s" % (al.short, ex))
+                    if okp:
+                        taken.append(delta)
+                ctx.count()
+                if len(taken) != 1 or taken[0] != (-off) % a_:
+                    bad_al.append({"offset": off, "alignment": a_, "advance": taken, "expected": (-off) % a_})
+        ctx.check(not bad_al, al.short, "pads forward to the next multiple", "alignment only moves forward, by (-offset) mod alignment (100 points)", al.where(), bad_al[:3], nontrivial=False)
 
 
 def _max0_arg(e: ast.AST) -> Optional[ast.AST]:
@@ -464,20 +544,42 @@ def rule_r5(ctx: Ctx) -> None:
     init_env = {k: bc.visit(ast.parse(norm(v), mode="eval").body) for k, v in stores.items()}
 
     def limited(c: Any, pol: bool) -> bool:
-        return pol and not isinstance(c, tuple) and isinstance(c, ast.Compare) and isinstance(c.ops[0], ast.IsNot) and norm(c.left) in limit_fields
+        """the path is the bounded reader's: `<limit field> is not None` taken, or `<limit field> is None` not taken"""
+        if isinstance(c, tuple) or not (isinstance(c, ast.Compare) and len(c.ops) == 1 and norm(c.left) in limit_fields and norm(c.comparators[0]) == "None"):
+            return False
+        return (isinstance(c.ops[0], ast.IsNot) and pol) or (isinstance(c.ops[0], ast.Is) and not pol)
+
+    def bounded_value_of_property(name: str) -> Optional[ast.AST]:
+        """what the property returns for a bounded reader, as max(0, X) -> X"""
+        prop = rd.methods.get(name)
+        if prop is None or not prop.is_property:
+            return None
+        for p in paths_of(ctx.inl(prop)):
+            if p.kind == "return" and any(limited(c, pol) for c, pol in p.conds):
+                return _max0_arg(p.value)
+        return None
+
+    def available(e: ast.AST) -> Optional[ast.AST]:
+        m = _max0_arg(e)
+        if m is not None:
+            return m
+        if isinstance(e, ast.Attribute) and norm(e.value) == "self":
+            return bounded_value_of_property(e.attr)
+        return None
 
     # read_bits: the quantity compared with bit_length on the limited branch
     avail_rb = None
-    for p in paths_of(rb.node):
+    for p in paths_of(ctx.inl(rb, keep=("read_bits",))):
         if not any(limited(c, pol) for c, pol in p.conds):
             continue
         for c, pol in p.conds:
-            if not isinstance(c, tuple) and isinstance(c, ast.Compare) and norm(c.left) == rb.params[1] and isinstance(c.ops[0], ast.Gt):
-                avail_rb = _max0_arg(c.comparators[0])
-    avail_rem = None
-    for p in paths_of(rem.node):
-        if p.kind == "return" and any(limited(c, pol) for c, pol in p.conds):
-            avail_rem = _max0_arg(p.value)
+            if not isinstance(c, tuple) and isinstance(c, ast.Compare) and len(c.ops) == 1:
+                l, r = norm(c.left), norm(c.comparators[0])
+                if l == rb.params[1] and isinstance(c.ops[0], (ast.Gt, ast.GtE, ast.Lt, ast.LtE)):
+                    avail_rb = available(c.comparators[0]) or avail_rb
+                elif r == rb.params[1] and isinstance(c.ops[0], (ast.Gt, ast.GtE, ast.Lt, ast.LtE)):
+                    avail_rb = available(c.left) or avail_rb
+    avail_rem = bounded_value_of_property("remaining_bits")
     if avail_rb is None or avail_rem is None:
         raise AnalysisError("_BitReader: cannot find max(0, <available>) on the bounded branch of read_bits (%s) / remaining_bits (%s)" % (norm(avail_rb) if avail_rb else None, norm(avail_rem) if avail_rem else None))
     la, lr = lin_of(substitute(avail_rb, fixed_env)), lin_of(substitute(avail_rem, fixed_env))
@@ -493,18 +595,41 @@ def rule_r4(ctx: Ctx) -> None:
     ctx.rule("C07.R4", "no hidden inputs: _serdes has no module-level mutable state, no global statements, no environment / clock / random access", min_instances=1)
     m = repo.module(SD)
     mutable = []
+    MUT = {"append", "extend", "insert", "pop", "remove", "clear", "update", "setdefault", "popitem", "add", "discard", "sort", "reverse", "__setitem__"}
     for name, v in m.assigns.items():
         if isinstance(v, (ast.List, ast.Dict, ast.Set, ast.ListComp, ast.DictComp)) or (isinstance(v, ast.Call) and dotted(v.func) in ("list", "dict", "set", "bytearray", "collections.defaultdict")):
-            mutable.append(name)
+            # a module-level table is state only if something writes to it
+            written = []
+            for fn in repo.all_functions().values():
+                if fn.module is not m:
+                    continue
+                for n in ast.walk(fn.node):
+                    tg = []
+                    if isinstance(n, ast.Assign):
+                        tg = n.targets
+                    elif isinstance(n, (ast.AugAssign, ast.AnnAssign)):
+                        tg = [n.target]
+                    elif isinstance(n, ast.Delete):
+                        tg = n.targets
+                    for t in tg:
+                        base = t
+                        while isinstance(base, (ast.Subscript, ast.Attribute)):
+                            base = base.value
+                        if isinstance(base, ast.Name) and base.id == name and not (isinstance(t, ast.Name) and not any(isinstance(g, ast.Global) and name in g.names for g in ast.walk(fn.node))):
+                            written.append(fn.short)
+                    if isinstance(n, ast.Call) and isinstance(n.func, ast.Attribute) and n.func.attr in MUT and isinstance(n.func.value, ast.Name) and n.func.value.id == name:
+                        written.append(fn.short)
+            if written:
+                mutable.append("%s (written in %s)" % (name, sorted(set(written))))
     globs = [fn.short for fn in repo.all_functions().values() if fn.module is m and any(isinstance(n, (ast.Global, ast.Nonlocal)) for n in ast.walk(fn.node))]
     ext = sorted({dotted(n) for fn in repo.all_functions().values() if fn.module is m for n in ast.walk(fn.node) if isinstance(n, ast.Attribute) and (dotted(n) or "").split(".")[0] in ("os", "time", "random", "sys")})
     ctx.check(not mutable and not globs and not ext, "_serdes", "module state", "decoding depends on the schema and the bytes only", m.relpath, {"mutable_globals": mutable, "global_statements": globs, "external_state": ext})
 
 
 def run(ctx: Ctx) -> None:
-    rule_r1(ctx)
-    rule_r2(ctx)
-    rule_r3(ctx)
-    rule_r4(ctx)
-    rule_r5(ctx)
+    ctx.attempt(rule_r1, ctx)
+    ctx.attempt(rule_r2, ctx)
+    ctx.attempt(rule_r3, ctx)
+    ctx.attempt(rule_r4, ctx)
+    ctx.attempt(rule_r5, ctx)
     ctx.undecided("the fixed-point clause (deserialize . serialize . deserialize), bit values of decoded numbers, decode(b) == decode(b + zeros) as a value fact, running time for huge declared lengths")
